@@ -138,6 +138,13 @@ def classify(bad, texts, wd):
     for i, v in bad:
         if i not in known and v == "bad:rejected-derivable":
             import re
+            # an identifier with two or more consecutive '-' / '.' inside ("x..y", "a.-b"): id = EALPHA *(*("-" / ".") (EALPHA / DIGIT))
+            # allows it, the PEG reads '..' as the range operator
+            if re.search(r"(?<![\w@$.-])[A-Za-z_@$][\w@$]*(?:[-.]?[\w@$]+)*[-.]{2,}[\w@$]", texts[i]):
+                known[i] = "C03-id-consecutive-dots"
+    for i, v in bad:
+        if i not in known and v == "bad:rejected-derivable":
+            import re
             # a name with a single '$' prefix extended with '//=': an id per the ABNF, but the PEG reserves '$$' for group sockets
             if re.search(r"(?m)^\s*\$(?!\$)[\w.@-]*\s*(<[^>\n]*>)?\s*//=", texts[i]):
                 known[i] = "C03-single-dollar-groupname"
